@@ -190,3 +190,20 @@ def field_class(key: str, T):
         globals()[cls.__name__] = cls
         _FIELD_CLASSES[key] = cls
     return _FIELD_CLASSES[key]
+
+
+# ---- round 4: two structured classes with overlapping fields (which member of Union[Cat, Dog] takes a dict depends on
+# the dict's keys, not on its class)
+@dataclasses.dataclass
+class Cat:
+    name: str
+    lives: int
+
+
+@dataclasses.dataclass
+class Dog:
+    name: str
+
+
+CLASSES["Cat"] = Cat
+CLASSES["Dog"] = Dog
